@@ -370,6 +370,11 @@ func leastConnsBalance(backs BackendList) (BackendList, error) {
 		}
 	}
 
+	// availability is re-read above: every backend may have gone down since the first pass
+	if len(candidates) == 0 {
+		return nil, fmt.Errorf("rr_bal:all backend is down")
+	}
+
 	return candidates, nil
 }
 
